@@ -148,7 +148,7 @@ def obligations(tier, seed):
                 n += 1 if heavy > 2 or parent in ('group', 'split', 'group_roll') else 2
             if q and heavy > 2 and parent in ('group', 'split', 'group_roll', 'roll22'):
                 n = 3
-            obs.append(Ob(PROP, 'confined', dict(parent=parent, inner=inner, n=n), budget=b * 3 if heavy > 3 else b, group='confined:' + parent,
+            obs.append(Ob(PROP, 'confined', dict(parent=parent, inner=inner, n=n), budget=b * 3 if heavy >= 3 else b, group='confined:' + parent,
                           bound=dict(items=n, parent=parent, inner=C.show(INNERS[inner]))))
         if heavy > 1:
             for kp in (KEYPAT[:3] if q else KEYPAT):
@@ -156,7 +156,7 @@ def obligations(tier, seed):
                     continue
                 if q and inner == 'nested_group_s' and kp != KEYPAT[1]:
                     continue
-                obs.append(Ob(PROP, 'slots', dict(inner=inner, keys=kp), budget=b * 3 if heavy > 3 else b, bound=dict(lifetimes=3, key_indices=kp, items=4)))
+                obs.append(Ob(PROP, 'slots', dict(inner=inner, keys=kp), budget=b * 3 if heavy >= 3 else b, bound=dict(lifetimes=3, key_indices=kp, items=4)))
         elif not inner.startswith('nested') or not q:
             obs.append(Ob(PROP, 'slots', dict(inner=inner), budget=b, bound=dict(lifetimes=3, key_indices='solver-chosen from {0,2,5}', items=4)))
     obs.append(Ob(PROP, 'confined', dict(parent='roll22', inner='tee_zip', n=4, _twin='reach'), budget=60, expect='refute'))
